@@ -5,6 +5,8 @@ import (
 	"fmt"
 	"os"
 
+	"golang.org/x/tools/go/ssa"
+
 	"verif/sa/internal/an"
 )
 
@@ -35,5 +37,32 @@ func cmdRetCases(args []string) int {
 			fmt.Printf("   guard %v %s  [%T] flagPreds=%v\n", g.True, an.Render(g.Cond, 3), g.Cond, pr)
 		}
 	}
+	return 0
+}
+
+// cmdBounds prints, for every index / slice instruction of a function, whether the guard prover shows it in range.
+func cmdBounds(args []string) int {
+	fs := flag.NewFlagSet("bounds", flag.ExitOnError)
+	pkg := fs.String("pkg", "", "")
+	fnName := fs.String("fn", "", "")
+	repo := fs.String("repo", "/repo", "")
+	fs.Parse(args)
+	p, err := an.Load(an.Config{Dir: *repo, Patterns: []string{"./..."}, GOOS: "linux", GOARCH: "amd64"})
+	if err != nil {
+		fmt.Fprintln(os.Stderr, err)
+		return 2
+	}
+	fn, err := p.Func(*pkg, *fnName)
+	if err != nil {
+		fmt.Fprintln(os.Stderr, err)
+		return 2
+	}
+	an.Instrs(fn, func(in ssa.Instruction) {
+		switch in.(type) {
+		case *ssa.IndexAddr, *ssa.Index, *ssa.Slice:
+			ok, why := an.ProveInBounds(in, 64)
+			fmt.Printf("%-28s %-40s %v  %s\n", p.InstrPos(in), in.String(), ok, why)
+		}
+	})
 	return 0
 }
